@@ -10,6 +10,7 @@ from .childcheck import newsa_index, PROTO_NUM
 from .kernel import _addr_raw
 
 KINDS_C11 = ('invalid_ke_never_offered', 'foreign_child_response', 'foreign_init_response', 'multi_proposal_request')
+KINDS_C10 = ('bad_reply',)
 KINDS_C12 = ('widen_response', 'flip_mode_response', 'ts_list_request', 'narrow_rekey_response')
 
 
@@ -260,6 +261,74 @@ def make(kind, seed, world, ip, tap, reach):
                                 f'proposal not drawn from its offer ({t["what"]})')
             return None
         return rule, verdict
+
+    # ------------------------------------------------------------------------------------------------------------
+    if kind == 'bad_reply':
+        # a peer that answers CREATE_CHILD_SA / INFORMATIONAL requests with something a conforming peer may legally send but this
+        # implementation never does, or with a defective reply: an error notify, a reply missing payloads, a foreign proposal
+        p_hit = r0.choice([0.15, 0.4, 1.0])
+        only = r0.choice([None, None, 'ike_rekey', 'child'])
+
+        def rule(meta, data):
+            try:
+                h = R.dec_header(data)
+            except R.DecodeError:
+                return None
+            if not h['R'] or h['exch'] not in (R.CREATE_CHILD_SA, R.INFORMATIONAL):
+                return None
+            r = random.Random(f'byz:{seed}:{meta["key"]}')
+            if r.random() >= p_hit:
+                return None
+            opened = ip.open(data)
+            if opened is None:
+                return None
+            _, pls, s = opened
+            sa = next((p for p in pls if p['type'] == R.P_SA), None)
+            is_ike = bool(sa and sa['proposals'] and sa['proposals'][0]['proto'] == R.PROTO_IKE)
+            if only == 'ike_rekey' and not is_ike:
+                return None
+            if only == 'child' and (is_ike or sa is None):
+                return None
+            note = lambda nt, d=b'': {'type': R.P_NOTIFY, 'proto': 0, 'ntype': nt, 'spi': b'', 'data': d}
+            if h['exch'] == R.INFORMATIONAL:
+                how = r.choice(['empty', 'invalid_syntax', 'unknown_error'])
+                pls = {'empty': [], 'invalid_syntax': [note(7)], 'unknown_error': [note(r.choice([44, 9000]))]}[how]
+            else:
+                how = r.choice(['no_proposal_chosen', 'no_additional_sas', 'ts_unacceptable', 'temporary_failure', 'invalid_syntax', 'unknown_error',
+                                'drop_sa', 'drop_nonce', 'drop_ke', 'drop_ts', 'foreign_transform', 'empty', 'child_sa_not_found'])
+                if how == 'no_proposal_chosen':
+                    pls = [note(14)]
+                elif how == 'no_additional_sas':
+                    pls = [note(35)]
+                elif how == 'ts_unacceptable':
+                    pls = [note(38)]
+                elif how == 'temporary_failure':
+                    pls = [note(43)]
+                elif how == 'child_sa_not_found':
+                    pls = [note(44)]
+                elif how == 'invalid_syntax':
+                    pls = [note(7)]
+                elif how == 'unknown_error':
+                    pls = [note(r.choice([45, 8191]))]
+                elif how == 'empty':
+                    pls = []
+                elif how.startswith('drop_'):
+                    t = {'drop_sa': (R.P_SA,), 'drop_nonce': (R.P_NONCE,), 'drop_ke': (R.P_KE,), 'drop_ts': (R.P_TSi, R.P_TSr)}[how]
+                    if not any(p['type'] in t for p in pls):
+                        return None
+                    pls = [p for p in pls if p['type'] not in t]
+                else:
+                    if sa is None:
+                        return None
+                    t = r.choice(sa['proposals'][0]['transforms'])
+                    t['id'] = {1: 3, 2: 4, 3: 1, 4: 5, 5: 1}.get(t['type'], 1)       # 3DES / PRF_AES128_XCBC / HMAC_MD5_96 / MODP1536 / ESN
+                    t['keylen'], t['attrs'] = None, []
+            count('byz.bad_reply')
+            count('byz.bad_reply.' + ('ike_rekey.' if is_ike else '') + how)
+            new = ip.seal(s, {'spi_i': h['spi_i'], 'spi_r': h['spi_r'], 'exch': h['exch'], 'I': h['I'], 'R': True, 'id': h['id']}, pls, _rb(r, 16))
+            return [(new, 0.0)]
+        rule.label = 'byz.bad_reply'
+        return rule, lambda w: None
 
     # ------------------------------------------------------------------------------------------------------------
     if kind in ('multi_proposal_request', 'ts_list_request'):
